@@ -10,7 +10,7 @@ RULE = ("Seeded plans. CheckpointSim (9 of 10 plans): assess_performance_and_che
         ">= vs >, cut-short, single switch). TrainSim (1 of 10): train_td7 on SimEnv with scripted returns; released train iterations "
         "(one 'embedding loss' record each), 'training steps' records and 'actor_checkpoint' events per iteration vs the reference; "
         "checkpoint modules bitwise equal to the acting policy at replacement and constant otherwise. "
-        "Distinct = distinct (window, threshold, weight, start epoch, history length, #updates, fault kinds).")
+        "Additional plans: train_td7 limited by total_episodes (the window ending with the last budgeted episode is assessed as well). The checkpoint must equal the actor as it was at the START of the iteration of its replacement (the assessed policy, before the training steps released in that iteration). " "Distinct = distinct (window, threshold, weight, start epoch, history length, #updates, fault kinds).")
 REAL = ["blox.checkpointing.assess_performance_and_checkpoint", "CheckpointState", "train_td7 release loop and checkpoint copies"]
 STUB = ["episode outcomes (scripted)", "environment (SimEnv) and logger (ProbeLogger) in TrainSim plans"]
 ASSUMPTIONS = ["'crosses the threshold' = epoch_before < threshold <= epoch_after; threshold 0 is therefore never crossed",
